@@ -544,6 +544,27 @@ func TrackerWF(t *SessionTracker) bool {
 	return t != nil && t.mailbox != nil && wfBack(t.queue, len(t.queue)-1, t.mailbox.numMessages)
 }
 
+// TrackerCount: the mailbox tracker's message count (exported for the contracts
+// of back ends, which must keep it equal to the length of their message list).
+//
+//@ pure
+func TrackerCount(t *MailboxTracker) uint32 { return t.numMessages }
+
+// QueueExpunge / QueueNumMessages: the documented misuse conditions are
+// preconditions (every caller in the module is checked against them) and the
+// count follows the update.
+//
+//@ func (t *MailboxTracker) QueueExpunge(seqNum uint32)
+//@   props C07 C08
+//@   requires t != nil && seqNum != 0 && seqNum <= t.numMessages
+//@   ensures t.numMessages == old(t.numMessages)-1
+
+//@ func (t *MailboxTracker) QueueNumMessages(n uint32)
+//@   props C07 C08
+//@   requires t != nil && n >= t.numMessages
+//@   ensures n != 0 ==> t.numMessages == n
+//@   ensures n == 0 ==> t.numMessages == old(t.numMessages)
+
 // ---------------------------------------------------------------------------
 // C08: EXPUNGE is never sent while answering FETCH, STORE or SEARCH.
 
